@@ -13,18 +13,27 @@ EXTENDS Integers, Sequences, FiniteSets, TLC, Json
 CONSTANTS NFn,        \* functions 1..NFn
           Declared,   \* [1..NFn -> SUBSET Flags]
           Class,      \* [1..NFn -> "pure" | "safeio" | "os"]   static reachability of OS primitives
-          ReqSets     \* the sets of required flags to explore
+          ReqSets,    \* the sets of required flags to explore
+          InnerDefs   \* definitions of a context nested inside: records [flags, cpu, mem] (cpu/mem: a hard limit is set)
 
 Flags == {"memsafe", "cpusafe", "iosafe", "timesafe"}
 
 VARIABLES req,      \* flags required by the active context
           effects,  \* sequence of outside effects performed so far: <<f, class>>
-          alive, n, hist
+          alive, n, hist,
+          outer,    \* flags required by the enclosing context
+          inner     \* definition of the nested context the call is made in (or NoInner)
 
-vars == <<req, effects, alive, n, hist>>
+allvars == <<req, effects, alive, n, hist, outer, inner>>
 Emit(v) == PrintT(<<"@@", ToJson(v)>>)
 
-Init == req \in ReqSets /\ effects = <<>> /\ alive = TRUE /\ n = 0 /\ hist = <<>>
+(* a nested context requires everything its parent requires, plus its own flags, plus the flags implied by its limits *)
+Nested(R, d) == R \cup d.flags \cup (IF d.cpu THEN {"cpusafe"} ELSE {}) \cup (IF d.mem THEN {"memsafe"} ELSE {})
+NoInner == [flags |-> {}, cpu |-> FALSE, mem |-> FALSE, none |-> TRUE]
+
+Init == /\ outer \in ReqSets /\ inner \in InnerDefs \cup {NoInner}
+        /\ req = (IF "none" \in DOMAIN inner THEN outer ELSE Nested(outer, inner))
+        /\ effects = <<>> /\ alive = TRUE /\ n = 0 /\ hist = <<>>
 
 Allowed(f, R) == R \subseteq Declared[f]
 
@@ -38,13 +47,14 @@ CallGo(f) ==
                 ELSE IF Class[f] = "os" \/ (Class[f] = "safeio" /\ "iosafe" \notin req)
                 THEN Append(effects, <<f, Class[f]>>) ELSE effects
   /\ hist' = Append(hist, f)
-  /\ req' = req
-  /\ Emit([f |-> f, req |-> req, exp |-> IF Allowed(f, req) THEN "runs" ELSE "flag-error",
+  /\ req' = req /\ UNCHANGED <<outer, inner>>
+  /\ Emit([f |-> f, req |-> req, outer |-> outer,
+           inner |-> IF "none" \in DOMAIN inner THEN [none |-> TRUE] ELSE [flags |-> inner.flags, cpu |-> inner.cpu, mem |-> inner.mem], exp |-> IF Allowed(f, req) THEN "runs" ELSE "flag-error",
            mayeffect |-> Allowed(f, req) /\ (Class[f] = "os" \/ (Class[f] = "safeio" /\ "iosafe" \notin req)),
            iosafelead |-> Allowed(f, req) /\ "iosafe" \in req /\ Class[f] = "os"])
 
 Next == \E f \in 1..NFn : CallGo(f)
-Spec == Init /\ [][Next]_vars
+Spec == Init /\ [][Next]_allvars
 
 (* the statement to decide: with the inventory as extracted, can an outside effect happen under iosafe? *)
 IoSafe == ("iosafe" \in req) => effects = <<>>
